@@ -68,7 +68,9 @@ def observe(conv, battery, lsp):
         try:
             o = conv.structure(j, cls)
             u = conv.unstructure(o, cls)
-            obs.append(json.dumps(u, sort_keys=True, default=lambda x: getattr(x, "value", repr(x))))
+            # both halves of "same structuring and unstructuring results": the object graph (attrs repr shows
+            # classes, tuples vs lists, enum members) and the JSON
+            obs.append(repr(o) + " => " + json.dumps(u, sort_keys=True, default=lambda x: getattr(x, "value", repr(x))))
         except Exception:  # noqa: BLE001
             obs.append("raises")
     # constructor-built objects
